@@ -648,6 +648,7 @@ def check_sched_case(lines, table):
     info = table[f]
     problems, deadlock = [], False
     a_op, b_op, c_op, rb_line, b_blocked = [], [], [], None, None
+    ds_probes = []
     expect = lambda fi, x: 2 * ((fi * 37 + x * 11) % 500 + 1)
     for l in lines[1:]:
         t = l.split()
@@ -677,6 +678,10 @@ def check_sched_case(lines, table):
         elif t[0] in ("RA", "RB", "Q", "P"):
             if t[0] == "RB":
                 rb_line = l
+            if t[0] == "Q" and head[1].startswith("ds-"):
+                # two keys at most were ever stored in a cache with limit >= 2, nothing expires or is invalidated:
+                # the LAST two probes (one per key) must be served
+                ds_probes.append(l)
             m = re.search(r"call (\d+) (\d+) .*exec=\d+ enc=(\d+)", l) if t[0] in ("Q", "P") else None
             if m and table[int(m.group(1))]["ret"] == 0 and int(m.group(3)) != expect(int(m.group(1)), int(m.group(2))):
                 problems.append("VALUE call f%s x=%s returned enc %s, the function's value is %d"
@@ -733,6 +738,18 @@ def check_sched_case(lines, table):
                 for e in st:
                     if int(e[0]) >= 0 and int(e[1]) != expect(wf, int(e[0])):
                         problems.append("VALUE f%d stores enc %s under key %s, the function's value is %d" % (wf, e[1], e[0], expect(wf, int(e[0]))))
+    for l in ds_probes[-2:]:
+        if "exec=1" in l:
+            problems.append("MISS f%d: after two overlapping first calls for one key, a key that was stored is not served although the cache "
+                            "never held more than two distinct keys (limit %s): %s" % (f, info["limit"], l))
+    # the order queue holds every key at most once (C18_quiescent_consistent: NoDup)
+    for l in lines[1:]:
+        if l.startswith("W "):
+            parts = [x.strip() for x in l[2:].split("|")]
+            q = [] if parts[1] == "-" else [k for k in parts[1].split(",") if k != "-1"]   # -1: a key outside the named alphabet
+            if len(set(q)) != len(q):
+                problems.append("UNTRACKED f%s: the order queue holds a key twice at quiescence: %s" % (parts[0], q))
+                break
     return deadlock, problems
 
 
